@@ -92,7 +92,9 @@ def subdir_matrix_project() -> T.Dict[str, T.Any]:
         for strip in (False, True):
             for how in ('plain', 'option', 'abs', 'default'):
                 k += 1
-                it: T.Dict[str, T.Any] = {'kind': 'subdir', 'sp': sp, 'files': [f'sd{k}', 'f1.txt', 'sub/f2.txt'], 'strip': strip}
+                # every second directory is spelled with a trailing slash (legal: install_subdir('docs/', ...))
+                it: T.Dict[str, T.Any] = {'kind': 'subdir', 'sp': sp, 'files': [f'sd{k}' + ('/' if k % 2 == 0 else ''), 'f1.txt', 'sub/f2.txt'],
+                                          'strip': strip}
                 if how == 'plain':
                     it['install_dir'] = f'share/plain{k}'
                 elif how == 'abs':
@@ -126,6 +128,21 @@ def preserve_path_project() -> T.Dict[str, T.Any]:
                     it['install_dir'] = f'include/demo-tree{k}'
                 installs.append(it)
     return projgen.normalize({'name': 'ppm', 'lang': '', 'installs': installs})
+
+
+def build_subdir_project(layout: str) -> T.Dict[str, T.Any]:
+    """Targets of every file-producing kind with build_subdir:, in the root, a subdirectory and a subproject."""
+    ts = [
+        {'kind': 'exe', 'name': 'tool', 'srcs': ['m1.c'], 'subdir': 'src', 'bsub': 'bin', 'install': True},
+        {'kind': 'static', 'name': 'st', 'srcs': ['m2.c'], 'subdir': 'src', 'bsub': 'lib/x'},
+        {'kind': 'both', 'name': 'bo', 'srcs': ['m3.c'], 'bsub': 'libs'},
+        {'kind': 'custom', 'name': 'ct', 'outs': ['o1.txt', 'o2.txt'], 'bsub': 'gen', 'bbd': 'true'},
+        {'kind': 'exe', 'name': 'plain', 'srcs': ['m5.c'], 'link': [2]},
+    ]
+    ts = [dict(t, sp='sp1', name='sp' + t['name']) for t in ts[:2]] + ts
+    ts[-1]['link'] = [4]
+    return projgen.normalize({'name': 'bsub', 'layout': layout, 'deflib': 'shared', 'targets': ts,
+                              'tests': [{'name': 't', 'exe': 3, 'depends': [6]}]})
 
 
 def to_trace(case: T.Dict[str, T.Any]) -> T.Dict[str, T.Any]:
@@ -175,6 +192,9 @@ def custom_source_causes(case: T.Dict[str, T.Any], items: T.List[str]) -> T.Opti
 def signature(case: T.Dict[str, T.Any], v: T.Dict[str, T.Any]) -> str:
     what = case['info'].get('name') or case['info'].get('flavour', '')
     det = '|'.join(sorted(str(x) for x in v['detail'])[:3])[:200]
+    if case['info'].get('tag'):
+        # dedicated probe project (fixed input): the clause identifies the finding
+        return f"{v['clause']}@{case['info']['tag']}"
     if v['clause'] in ('PlanVsInstallData', 'InstalledVsInstallData') and v['detail']:
         # normalised cause: every offending source path is installed to more than one destination (the JSON
         # files are keyed by source path and can hold only one of them)
@@ -216,7 +236,7 @@ def main(chk: Check) -> None:
     jobs: T.List[T.Dict[str, T.Any]] = []
     for k in range(n_c):
         r2 = random.Random(chk.seed * 104729 + k)
-        p = projgen.random_project(r2, n_targets=r2.randint(3, 12), custom_inputs=True, alias_runs=True)
+        p = projgen.random_project(r2, n_targets=r2.randint(3, 12), custom_inputs=True, alias_runs=True, build_subdirs=True)
         pre = r2.choice(['/usr/local', '/usr', '/opt/p q'])
         jobs.append({'id': f'R{k}', 'kind': 'proj', 'p': p, 'views': True, 'flavour': f'randomC#{k}',
                      'extra_args': [f'--prefix={pre}'] + r2.choice([[], ['--libdir=lib'], ['--bindir=/abs/bin']])
@@ -229,6 +249,9 @@ def main(chk: Check) -> None:
                      'run_tests': True, 'flavour': f'data#{k}', 'extra_args': [f'--prefix={pre}'] + option_overrides(p, r2)})
     jobs.append({'id': 'S0', 'kind': 'proj', 'p': subdir_matrix_project(), 'views': True, 'backend': 'none', 'install': True,
                  'run_tests': False, 'flavour': 'install_subdir-matrix', 'extra_args': ['--prefix=/usr/zz', '-Ddatadir=share/dd']})
+    jobs.append({'id': 'S2', 'kind': 'proj', 'p': build_subdir_project('mirror'), 'views': True, 'flavour': 'build_subdir-mirror'})
+    jobs.append({'id': 'S3', 'kind': 'proj', 'p': build_subdir_project('flat'), 'views': True, 'flavour': 'build_subdir-flat',
+                 'tag': 'flat-layout-with-build_subdir'})
     jobs.append({'id': 'S1', 'kind': 'proj', 'p': preserve_path_project(), 'views': True, 'backend': 'none', 'install': True,
                  'run_tests': False, 'flavour': 'preserve_path-matrix', 'extra_args': ['--prefix=/usr/zz']})
     dirs = bv.corpus_dirs()
